@@ -14,16 +14,12 @@
 //! threads and hangs are contained.
 use serde::{Deserialize, Serialize};
 use serde_json::json;
-use std::collections::HashMap;
-use std::future::Future;
 use std::path::{Path, PathBuf};
-use std::pin::Pin;
 use std::sync::atomic::{AtomicBool, Ordering};
-use std::sync::{Arc, Condvar, Mutex, OnceLock};
-use std::task::{Context, Poll, Wake, Waker};
-use std::thread::ThreadId;
+use std::sync::Arc;
 use sway_lsp::server_state::ServerState;
 use tower_lsp::LanguageServer;
+use vh_lsp::lspsched::{self, HandlerFut, RunCfg, TraceEv};
 use vhcore::sched::{Alt, Bounds, Point};
 
 fn main() {
@@ -90,307 +86,6 @@ fn text_of_version(v: i32) -> String {
     format!("library;\n\npub fn version_{v}() -> u64 {{\n    let unused_v{v} = {v};\n    {v}\n}}\n")
 }
 
-// ---------------------------------------------------------------------------------------------
-// In-child controlled scheduler
-
-#[derive(Clone, Debug, PartialEq)]
-enum Status {
-    NotStarted,
-    Running,
-    AtPoint { label: String, version: Option<i32> },
-    ExecChoice { options: Vec<String> },
-    Idle,
-    Finished,
-}
-
-#[derive(Clone, Debug, Serialize, Deserialize)]
-struct TraceEv {
-    seq: usize,
-    tid: usize,
-    kind: String, // "arrive" | "grant"
-    label: String,
-    version: Option<i32>,
-    flags: String,
-}
-
-struct CtlState {
-    active: bool,
-    stop: bool,
-    threads: HashMap<ThreadId, usize>,
-    status: [Status; 2],
-    grant: [Option<usize>; 2], // Some(option index) when granted
-    trace: Vec<TraceEv>,
-    ready: Vec<bool>,          // per handler: woken / runnable
-    last_label: Vec<String>,   // per handler: last hook label seen while polling it
-    alive: Vec<bool>,          // per handler: future not finished yet
-    current_handler: Option<usize>,
-}
-
-struct Ctl {
-    m: Mutex<CtlState>,
-    cv: Condvar,
-    state: OnceLock<Arc<ServerState>>,
-}
-
-static CTL: OnceLock<Ctl> = OnceLock::new();
-
-fn ctl() -> &'static Ctl {
-    CTL.get_or_init(|| Ctl {
-        m: Mutex::new(CtlState {
-            active: false,
-            stop: false,
-            threads: HashMap::new(),
-            status: [Status::NotStarted, Status::NotStarted],
-            grant: [None, None],
-            trace: vec![],
-            ready: vec![],
-            last_label: vec![],
-            alive: vec![],
-            current_handler: None,
-        }),
-        cv: Condvar::new(),
-        state: OnceLock::new(),
-    })
-}
-
-fn flags_now() -> String {
-    match ctl().state.get() {
-        Some(s) => {
-            let (c, r, l) = s.verif_flags();
-            format!("compiling={c} retrigger={r} last={l} queued={}", s.verif_pending_requests())
-        }
-        None => String::new(),
-    }
-}
-
-const T: usize = 0;
-const W: usize = 1;
-
-/// The hook body: called by sway-lsp / sway-core at every labelled point.
-fn point(label: &'static str, version: Option<i32>) {
-    let c = ctl();
-    let me = std::thread::current().id();
-    let mut g = c.m.lock().unwrap();
-    if !g.active {
-        return;
-    }
-    let tid = match g.threads.get(&me) {
-        Some(t) => *t,
-        None => {
-            // adopt the server's own worker thread lazily at its first worker-labelled point
-            if label.starts_with("W:") && !g.threads.values().any(|t| *t == W) {
-                g.threads.insert(me, W);
-                W
-            } else {
-                return; // some other thread (tokio blocking pool, …): not scheduled
-            }
-        }
-    };
-    if tid == T {
-        if let Some(h) = g.current_handler {
-            g.last_label[h] = label.to_string();
-        }
-    }
-    let seq = g.trace.len();
-    g.trace.push(TraceEv { seq, tid, kind: "arrive".into(), label: label.to_string(), version, flags: String::new() });
-    g.status[tid] = Status::AtPoint { label: label.to_string(), version };
-    c.cv.notify_all();
-    loop {
-        if !g.active {
-            return;
-        }
-        if g.grant[tid].take().is_some() {
-            break;
-        }
-        g = c.cv.wait(g).unwrap();
-    }
-    g.status[tid] = Status::Running;
-    drop(g);
-    let fl = flags_now();
-    let mut g = c.m.lock().unwrap();
-    let seq = g.trace.len();
-    g.trace.push(TraceEv { seq, tid, kind: "grant".into(), label: label.to_string(), version, flags: fl });
-}
-
-struct HandlerWaker(usize);
-impl Wake for HandlerWaker {
-    fn wake(self: Arc<Self>) {
-        let c = ctl();
-        let mut g = c.m.lock().unwrap();
-        if self.0 < g.ready.len() {
-            g.ready[self.0] = true;
-        }
-        if g.status[T] == Status::Idle {
-            // the task thread will compute its options: the scheduler must wait for it
-            g.status[T] = Status::Running;
-        }
-        c.cv.notify_all();
-    }
-}
-
-type HandlerFut = Pin<Box<dyn Future<Output = ()> + Send>>;
-
-/// The task thread: issues client events and polls handler futures; which one next is a
-/// scheduler choice.
-fn task_thread(state: Arc<ServerState>, script: Vec<Ev>, file: PathBuf) {
-    let c = ctl();
-    {
-        let mut g = c.m.lock().unwrap();
-        g.threads.insert(std::thread::current().id(), T);
-        g.status[T] = Status::Running;
-    }
-    let rt = tokio::runtime::Builder::new_multi_thread().worker_threads(1).enable_all().build().unwrap();
-    let _enter = rt.enter();
-    let uri = lsp_types::Url::from_file_path(&file).unwrap();
-    let mut handlers: Vec<Option<HandlerFut>> = vec![];
-    let mut next_event = 0usize;
-    let mut version = 1i32;
-    loop {
-        // options
-        let options: Vec<(String, usize, bool)> = {
-            let g = c.m.lock().unwrap();
-            if g.stop {
-                break;
-            }
-            let mut o = vec![];
-            for (i, h) in handlers.iter().enumerate() {
-                if h.is_some() && g.ready[i] {
-                    o.push((format!("T:poll#{i}"), i, false));
-                }
-            }
-            if next_event < script.len() {
-                o.push((format!("T:issue#{next_event}:{:?}", script[next_event]), next_event, true));
-            }
-            o
-        };
-        if options.is_empty() {
-            let mut g = c.m.lock().unwrap();
-            if handlers.iter().all(|h| h.is_none()) && next_event >= script.len() {
-                g.status[T] = Status::Finished;
-                c.cv.notify_all();
-                break;
-            }
-            // idle until a handler is woken (or stop)
-            if !handlers.iter().enumerate().any(|(i, h)| h.is_some() && g.ready[i]) {
-                g.status[T] = Status::Idle;
-                c.cv.notify_all();
-                while !g.stop && !handlers.iter().enumerate().any(|(i, h)| h.is_some() && g.ready[i]) {
-                    g = c.cv.wait(g).unwrap();
-                }
-                if g.stop {
-                    break;
-                }
-                g.status[T] = Status::Running;
-            }
-            continue;
-        }
-        // executor-level choice
-        let chosen = {
-            let mut g = c.m.lock().unwrap();
-            if !g.active {
-                break;
-            }
-            g.status[T] = Status::ExecChoice { options: options.iter().map(|o| o.0.clone()).collect() };
-            c.cv.notify_all();
-            let k = loop {
-                if !g.active || g.stop {
-                    break None;
-                }
-                if let Some(k) = g.grant[T].take() {
-                    break Some(k);
-                }
-                g = c.cv.wait(g).unwrap();
-            };
-            g.status[T] = Status::Running;
-            match k {
-                Some(k) => {
-                    let seq = g.trace.len();
-                    g.trace.push(TraceEv { seq, tid: T, kind: "grant".into(), label: options[k].0.clone(), version: None, flags: String::new() });
-                    k
-                }
-                None => break,
-            }
-        };
-        let (_, idx, is_issue) = options[chosen].clone();
-        let h = if is_issue {
-            let ev = script[idx];
-            next_event += 1;
-            let st = state.clone();
-            let u = uri.clone();
-            let fut: HandlerFut = match ev {
-                Ev::Open => Box::pin(async move {
-                    st.did_open(lsp_types::DidOpenTextDocumentParams {
-                        text_document: lsp_types::TextDocumentItem { uri: u, language_id: "sway".into(), version: 1, text: text_of_version(1) },
-                    })
-                    .await
-                }),
-                Ev::Change => {
-                    version += 1;
-                    let v = version;
-                    Box::pin(async move {
-                        st.did_change(lsp_types::DidChangeTextDocumentParams {
-                            text_document: lsp_types::VersionedTextDocumentIdentifier { uri: u, version: v },
-                            content_changes: vec![lsp_types::TextDocumentContentChangeEvent { range: None, range_length: None, text: text_of_version(v) }],
-                        })
-                        .await
-                    })
-                }
-                Ev::Save => Box::pin(async move {
-                    st.did_save(lsp_types::DidSaveTextDocumentParams { text_document: lsp_types::TextDocumentIdentifier { uri: u }, text: None }).await
-                }),
-                Ev::Wait => Box::pin(async move { st.wait_for_parsing().await }),
-            };
-            handlers.push(Some(fut));
-            let mut g = c.m.lock().unwrap();
-            g.ready.push(true);
-            g.last_label.push(String::new());
-            g.alive.push(true);
-            handlers.len() - 1
-        } else {
-            idx
-        };
-        // poll handler h until it finishes or blocks on the notify
-        loop {
-            {
-                let mut g = c.m.lock().unwrap();
-                g.ready[h] = false;
-                g.current_handler = Some(h);
-                g.last_label[h].clear();
-            }
-            let waker: Waker = Arc::new(HandlerWaker(h)).into();
-            let mut cx = Context::from_waker(&waker);
-            let r = handlers[h].as_mut().unwrap().as_mut().poll(&mut cx);
-            let mut g = c.m.lock().unwrap();
-            g.current_handler = None;
-            match r {
-                Poll::Ready(()) => {
-                    handlers[h] = None;
-                    g.alive[h] = false;
-                    break;
-                }
-                Poll::Pending => {
-                    if g.last_label[h] == "T:wp_wait" {
-                        // blocked on finished_compilation.notified(): a scheduling-relevant wait
-                        break;
-                    }
-                    // pending inside tokio::fs (blocking pool): not a scheduling point, wait and re-poll
-                    while !g.ready[h] && !g.stop {
-                        g = c.cv.wait(g).unwrap();
-                    }
-                    if g.stop {
-                        return;
-                    }
-                }
-            }
-        }
-    }
-    let mut g = c.m.lock().unwrap();
-    if g.status[T] != Status::Finished {
-        g.status[T] = Status::Finished;
-    }
-    c.cv.notify_all();
-}
-
 #[derive(Serialize, Deserialize, Debug, Default)]
 struct ExecResult {
     points: Vec<(Vec<(String, u32)>, usize)>, // (alts (label, preempt cost), chosen)
@@ -405,6 +100,7 @@ fn exec_child(args: &[String]) -> i32 {
     let script = parse_script(&args[0]);
     let prefix: Vec<usize> = serde_json::from_str(args.get(1).map(|s| s.as_str()).unwrap_or("[]")).unwrap();
     let work = PathBuf::from(args.get(2).cloned().unwrap_or_else(|| "/verif/work/C24/x".into()));
+    let follow: Option<Vec<String>> = args.get(3).and_then(|s| serde_json::from_str(s).ok());
     let _ = std::fs::remove_dir_all(&work);
     let proj = work.join("proj");
     std::fs::create_dir_all(proj.join("src")).unwrap();
@@ -419,131 +115,62 @@ fn exec_child(args: &[String]) -> i32 {
     std::env::set_var("TMPDIR", work.join("tmp"));
     std::fs::create_dir_all(work.join("tmp")).unwrap();
 
-    sway_lsp::verif::set_point(Box::new(|l, v| point(l, v)));
-    sway_core::verif::set_abort_check_point(Box::new(|l, _| point(l, None)));
-    let c = ctl();
-    c.m.lock().unwrap().active = true;
+    lspsched::install();
     let state = Arc::new(ServerState::default());
-    let _ = c.state.set(state.clone());
-    let st2 = state.clone();
-    let sc2 = script.clone();
-    let f2 = file.clone();
-    let th = std::thread::spawn(move || task_thread(st2, sc2, f2));
-
-    let mut points: Vec<(Vec<(String, u32)>, usize)> = vec![];
-    let mut running: Option<usize> = None;
-    let deadline = std::time::Instant::now() + std::time::Duration::from_secs(100);
-    let terminal;
-    loop {
-        // wait until neither controlled thread is running
-        let mut g = c.m.lock().unwrap();
-        loop {
-            let busy = |s: &Status| matches!(s, Status::Running | Status::NotStarted);
-            if !busy(&g.status[T]) && !busy(&g.status[W]) {
-                break;
+    let uri = lsp_types::Url::from_file_path(&file).unwrap();
+    let sc = script.clone();
+    let u0 = uri.clone();
+    let mut version = 1i32;
+    let factory: lspsched::EventFactory = Box::new(move |idx: usize, st: Arc<ServerState>| -> HandlerFut {
+        let u = u0.clone();
+        match sc[idx] {
+            Ev::Open => Box::pin(async move {
+                st.did_open(lsp_types::DidOpenTextDocumentParams {
+                    text_document: lsp_types::TextDocumentItem { uri: u, language_id: "sway".into(), version: 1, text: text_of_version(1) },
+                })
+                .await
+            }),
+            Ev::Change => {
+                version += 1;
+                let v = version;
+                Box::pin(async move {
+                    st.did_change(lsp_types::DidChangeTextDocumentParams {
+                        text_document: lsp_types::VersionedTextDocumentIdentifier { uri: u, version: v },
+                        content_changes: vec![lsp_types::TextDocumentContentChangeEvent { range: None, range_length: None, text: text_of_version(v) }],
+                    })
+                    .await
+                })
             }
-            let (ng, to) = c.cv.wait_timeout(g, std::time::Duration::from_millis(500)).unwrap();
-            g = ng;
-            if to.timed_out() && std::time::Instant::now() > deadline {
-                println!("@@WATCHDOG status={:?}", g.status);
-                return 2;
-            }
+            Ev::Save => Box::pin(async move {
+                st.did_save(lsp_types::DidSaveTextDocumentParams { text_document: lsp_types::TextDocumentIdentifier { uri: u }, text: None }).await
+            }),
+            Ev::Wait => Box::pin(async move { st.wait_for_parsing().await }),
         }
-        // alternatives
-        let queued = state.verif_pending_requests();
-        let mut per_thread: [Vec<String>; 2] = [vec![], vec![]];
-        for tid in [T, W] {
-            match &g.status[tid] {
-                Status::AtPoint { label, version } => {
-                    let enabled = if tid == W && label == "W:recv" { queued > 0 } else { true };
-                    if enabled {
-                        per_thread[tid].push(match version {
-                            Some(v) => format!("{label}(v{v})"),
-                            None => label.clone(),
-                        });
-                    }
-                }
-                Status::ExecChoice { options } => per_thread[tid].extend(options.iter().cloned()),
-                _ => {}
-            }
-        }
-        if per_thread[T].is_empty() && per_thread[W].is_empty() {
-            terminal = format!("T={:?} W={:?} queued={queued}", g.status[T], g.status[W]);
-            break;
-        }
-        let first = match running {
-            Some(r) if !per_thread[r].is_empty() => r,
-            _ => {
-                if !per_thread[T].is_empty() {
-                    T
-                } else {
-                    W
-                }
-            }
-        };
-        let running_enabled = running.map(|r| !per_thread[r].is_empty()).unwrap_or(false);
-        let mut alts: Vec<(String, u32, usize, usize)> = vec![]; // label, cost, tid, option idx
-        for (k, l) in per_thread[first].iter().enumerate() {
-            alts.push((l.clone(), 0, first, k));
-        }
-        let other = 1 - first;
-        for (k, l) in per_thread[other].iter().enumerate() {
-            alts.push((l.clone(), if running_enabled { 1 } else { 0 }, other, k));
-        }
-        let idx = points.len();
-        let chosen = if idx < prefix.len() { prefix[idx] } else { 0 };
-        if chosen >= alts.len() {
-            println!("@@DIVERGENCE point {idx}: choice {chosen} of {} alts {:?}", alts.len(), alts);
-            return 2;
-        }
-        points.push((alts.iter().map(|a| (a.0.clone(), a.1)).collect(), chosen));
-        let (_, _, tid, k) = alts[chosen].clone();
-        g.grant[tid] = Some(k);
-        g.status[tid] = Status::Running;
-        running = Some(tid);
-        c.cv.notify_all();
-        drop(g);
-        if points.len() > 5000 {
-            println!("@@WATCHDOG too many points");
-            return 2;
-        }
+    });
+    let labels: Vec<String> = script.iter().map(|e| format!("{e:?}")).collect();
+    let out = lspsched::run(
+        RunCfg { labels, prefix, issue_only_at_quiescence: false, follow },
+        state.clone(),
+        factory,
+        &mut |_, _| {},
+    );
+    if let Some(e) = &out.error {
+        println!("@@WATCHDOG {e}");
+        return 2;
     }
-    // terminal: evaluate, then tear down
-    let (trace, pending): (Vec<TraceEv>, Vec<String>) = {
-        let g = c.m.lock().unwrap();
-        let pend = g
-            .alive
-            .iter()
-            .enumerate()
-            .filter(|(_, a)| **a)
-            .map(|(i, _)| format!("handler#{i}@{}", g.last_label[i]))
-            .collect::<Vec<_>>();
-        (g.trace.clone(), pend)
-    };
-    let mut res = ExecResult { points, trace, terminal, ..Default::default() };
-    res.pending_handlers = pending;
+    let mut res = ExecResult { points: out.points.clone(), trace: out.trace.clone(), terminal: out.terminal.clone(), ..Default::default() };
+    res.pending_handlers = out.pending_handlers.clone();
     res.verdicts = judge(&script, &res);
     // secondary observation: diagnostics of the session
-    if let Ok(uri) = lsp_types::Url::from_file_path(&file) {
-        if let Ok((_, session)) = state.uri_and_session_from_workspace(&uri) {
-            for (p, d) in session.diagnostics.read().iter() {
-                for w in d.warnings.iter().chain(d.errors.iter()) {
-                    res.diagnostics.push(format!("{}: {}", p.file_name().map(|s| s.to_string_lossy().to_string()).unwrap_or_default(), w.message));
-                }
+    if let Ok((_, session)) = state.uri_and_session_from_workspace(&uri) {
+        for (p, d) in session.diagnostics.read().iter() {
+            for w in d.warnings.iter().chain(d.errors.iter()) {
+                res.diagnostics.push(format!("{}: {}", p.file_name().map(|s| s.to_string_lossy().to_string()).unwrap_or_default(), w.message));
             }
         }
     }
     println!("@@RESULT {}", serde_json::to_string(&res).unwrap());
-    // teardown: hooks off, release everyone, stop the server
-    {
-        let mut g = c.m.lock().unwrap();
-        g.active = false;
-        g.stop = true;
-        c.cv.notify_all();
-    }
-    let _ = state.shutdown_server();
-    let _ = th;
-    // do not join: a hung handler future would never finish; the process exits instead
+    lspsched::teardown(&state);
     0
 }
 
